@@ -193,6 +193,11 @@ fn gen(rng: &mut Rng, tier: Tier) -> Vec<Case> {
         let xs = if ty == "kv" { kv(rng, n, shape) } else { real_items(rng, ty, n) };
         push("random", C { rev: rng.chance(1, 4), chunk, threads: *rng.pick(&threads), comp: *rng.pick(&comps), tmp: rng.chance(1, 2), ty: ty.into(), border: rng.below(24), xs });
     }
+    // rayon's parallel quicksort path starts above 2000 elements per run: a few such inputs in every tier
+    for (n, chunk, th) in [(5_000usize, 2_500usize, 8usize), (4_100, 4_100, 3)] {
+        let xs: Vec<SItem> = (0..n).map(|i| (vec![rng.below(700)], (i as u32).to_be_bytes().to_vec())).collect();
+        push("parallel-sort", C { rev: rng.chance(1, 2), chunk, threads: th, comp: Some(4), tmp: true, ty: "kv".into(), border: rng.below(24), xs });
+    }
     if tier == Tier::Thorough {
         // large enough for par_sort_unstable_by to take its parallel path
         // (rayon's parallel quicksort starts above 2000 elements; the model's run formation is quadratic in the chunk size)
